@@ -152,6 +152,20 @@ def _local_defs(stmts) -> dict[str, ast.AST]:
     return {k: v for k, v in env.items() if count[k] == 1}
 
 
+def _follow(prog: Program, fn: FunctionInfo, body: list, matrix: str, depth: int = 0):
+    """(statements, matrix name, function) of the code a branch really runs: a body that is only `return helper(<matrix>)` is replaced by the
+    helper's body (private helper of the same module, followed twice at most)"""
+    stmts = [st for st in body if not (isinstance(st, ast.Expr) and isinstance(getattr(st, "value", None), ast.Constant))]
+    if depth < 2 and len(stmts) == 1 and isinstance(stmts[0], ast.Return) and isinstance(stmts[0].value, ast.Call):
+        call = stmts[0].value
+        if isinstance(call.func, ast.Name) and len(call.args) == 1 and isinstance(call.args[0], ast.Name) and call.args[0].id == matrix and not call.keywords:
+            q = prog.resolve_name(fn.module, call.func.id)
+            h = prog.functions.get(q) if q else None
+            if h is not None and len(h.params()) == 1:
+                return _follow(prog, h, h.node.body, h.params()[0].arg, depth + 1)
+    return stmts, matrix, fn
+
+
 # ---------------------------------------------------------------------------------------------- det
 def rule_det(run: Run, prog: Program) -> int:
     run.rule("E12.det", "every closed-form branch `if n == k: return <expression in the entries of A>` of det is, as a polynomial in the "
@@ -168,16 +182,17 @@ def rule_det(run: Run, prog: Program) -> int:
         return 0
     n = 0
     for k, st in _size_branches(fn, size):
-        rets = [r for r in st.body if isinstance(r, ast.Return) and r.value is not None]
+        body, A_, owner = _follow(prog, fn, st.body, A)
+        rets = [r for r in body if isinstance(r, ast.Return) and r.value is not None]
         if not rets:
             continue
-        env = _local_defs(st.body)
+        env = _local_defs(body)
         for r in rets:
             n += 1
-            loc = f"{fn.module.rel}:{r.lineno}"
+            loc = f"{owner.module.rel}:{r.lineno}"
             label = f"n == {k}"
             try:
-                poly = to_poly(r.value, A, k, env)
+                poly = to_poly(r.value, A_, k, env)
             except NotPolynomial as e:
                 run.add("E12.det", fn.short, label, UNDECIDED, f"closed form not read as a polynomial: {e}", loc)
                 continue
@@ -241,9 +256,10 @@ def rule_adjugate(run: Run, prog: Program) -> int:
         table = None  # table[i][j] = (sign, (r, c))
         ok = True
         why = ""
-        for s_ in st.body:
+        body2, A2, _owner2 = _follow(prog, fn, st.body, A)
+        for s_ in body2:
             if isinstance(s_, ast.Assign) and len(s_.targets) == 1 and isinstance(s_.targets[0], ast.Name) and isinstance(s_.value, ast.Subscript) \
-                    and isinstance(s_.value.value, ast.Name) and s_.value.value.id == A:
+                    and isinstance(s_.value.value, ast.Name) and s_.value.value.id == A2:
                 parts = _sub_parts(s_.value)
                 R, C = (_literal(parts[0]), _literal(parts[1])) if len(parts) == 2 else (None, None)
                 if isinstance(R, list) and isinstance(C, list) and len(R) == 2 and len(C) == 2:
@@ -279,11 +295,17 @@ def rule_adjugate(run: Run, prog: Program) -> int:
                 run.add("E12.adj", fn.short, "n == 2", VIOLATION,
                         f"the 2x2 branch builds {show(table)}; the adjugate is {show(want)} (A adj(A) = det(A) I fails for every 2x2 matrix)", loc)
     # ---- minor path: transposition + checkerboard
-    negs = [s_ for s_ in ast.walk(fn.node) if isinstance(s_, ast.AugAssign) and isinstance(s_.op, ast.Mult) and _const_int(s_.value) == -1
-            and isinstance(s_.target, ast.Subscript) and any(isinstance(p, ast.Slice) for p in _sub_parts(s_.target))]
+    region = prog.private_helpers(fn)
+    negs, neg_owner = [], fn
+    for g in region:
+        found = [s_ for s_ in ast.walk(g.node) if isinstance(s_, ast.AugAssign) and isinstance(s_.op, ast.Mult) and _const_int(s_.value) == -1
+                 and isinstance(s_.target, ast.Subscript) and any(isinstance(p, ast.Slice) for p in _sub_parts(s_.target))]
+        if found:
+            negs, neg_owner = found, g
+            break
     if negs:
         n_ob += 1
-        loc = f"{fn.module.rel}:{negs[0].lineno}"
+        loc = f"{neg_owner.module.rel}:{negs[0].lineno}"
         bad = None
         for n in range(2, 8):
             flipped: dict[tuple[int, int], int] = {}
@@ -317,10 +339,10 @@ def rule_adjugate(run: Run, prog: Program) -> int:
         # transposition
         n_ob += 1
         blk = None
-        for st in ast.walk(fn.node):
+        for st in ast.walk(neg_owner.node):
             if isinstance(st, ast.If) and any(x is negs[0] for x in ast.walk(st)):
                 blk = st
-        scope = blk.body if blk is not None else fn.node.body
+        scope = blk.body if blk is not None else neg_owner.node.body
         swaps = [x for s_ in scope for x in ast.walk(s_) if isinstance(x, ast.Call) and getattr(x.func, "attr", "") in ("swapaxes", "transpose", "matrix_transpose")
                  or isinstance(x, ast.Attribute) and x.attr in ("T", "mT")]
         if len(swaps) % 2 == 1:
@@ -366,13 +388,19 @@ def rule_inv(run: Run, prog: Program) -> int:
         run.add("E12.inv", "inv", "closed form", UNDECIDED, "inv not found", "")
         return 0
     fn = prog.body_of(fn)
-    A = _matrix_param(fn)
     n = 0
-    for st in ast.walk(fn.node):
-        if not isinstance(st, ast.If):
-            continue
-        env = _local_defs(st.body)
-        for r in [x for x in st.body if isinstance(x, ast.Return) and x.value is not None]:
+    blocks = []
+    for g in prog.private_helpers(fn):
+        Ag = _matrix_param(g)
+        for st in ast.walk(g.node):
+            if isinstance(st, ast.If):
+                blocks.append((g, Ag, st.body))
+        if g is not fn:
+            blocks.append((g, Ag, g.node.body))
+    for fn, A, body_ in blocks:
+        env = _local_defs(body_)
+        st = ast.Module(body=body_, type_ignores=[])
+        for r in [x for x in body_ if isinstance(x, ast.Return) and x.value is not None]:
             v = r.value
             if not (isinstance(v, ast.BinOp) and any(isinstance(x, ast.Call) and getattr(x.func, "id", getattr(x.func, "attr", "")) == "adjugate" for x in ast.walk(v))):
                 continue
@@ -409,7 +437,7 @@ def rule_inv(run: Run, prog: Program) -> int:
                         "the determinant of a batch has shape (...,) and must be broadcast as d[..., None, None] against the (..., n, n) adjugate: without it "
                         "numpy aligns the batch axis with the matrix columns (wrong quotient or a shape error for batches)", loc)
                 continue
-            guard = any(isinstance(x, ast.Raise) for s_ in st.body for x in ast.walk(s_))
+            guard = any(isinstance(x, ast.Raise) for s_ in body_ for x in ast.walk(s_))
             run.add("E12.inv", fn.short, ast.unparse(v)[:60], PROVEN if guard else UNDECIDED,
                     "adjugate(A) / det(A)[..., None, None] after a singularity test" if guard else "no singularity test (raise) found before the division", loc)
     return n
